@@ -45,7 +45,7 @@ var rnsFree = func() []string {
 
 func (s RNS) watched() []string {
 	if s.Prop == "C08" {
-		return append(append(append([]string{}, rnsNames...), rnsGen...), rnsFree...)
+		return append(append(append([]string{"alpha.ibc"}, rnsNames...), rnsGen...), rnsFree...)
 	}
 	return rnsNames
 }
@@ -513,7 +513,24 @@ func escrowAdd(cur string, delta map[string]sdk.Int) string {
 	return out.String()
 }
 
+// c08SiblingEnum: fixed histories with the same label under both top-level domains (the search alphabet has .jkl names only).
+func c08SiblingEnum() mc.Enum {
+	var paths [][]string
+	for _, listed := range []string{"alpha.jkl", "alpha.ibc"} {
+		other := map[string]string{"alpha.jkl": "alpha.ibc", "alpha.ibc": "alpha.jkl"}[listed]
+		reg := []string{"Register:A:alpha.jkl", "Register:A:alpha.ibc"}
+		paths = append(paths,
+			cat(reg, []string{"List:A:" + listed + ":5ujkl", "Buy:B:" + other, "Buy:C:" + listed, "Delist:A:" + other}),
+			cat(reg, []string{"List:A:" + listed + ":5ujkl", "Delist:A:" + other, "Buy:B:" + listed}),
+			cat(reg, []string{"Bid:B:" + listed + ":7ujkl", "Accept:A:" + other + ":B", "Cancel:B:" + other, "Accept:A:" + listed + ":B"}),
+			cat(reg, []string{"Transfer:A:" + listed + ":B", "Transfer:B:" + other + ":C", "Update:B:" + other, "AddRecord:B:" + other}),
+			cat([]string{"Register:A:" + listed, "Register:B:" + other, "List:A:" + listed + ":5ujkl", "List:B:" + other + ":7ujkl", "Buy:C:" + listed, "Buy:C:" + other}))
+	}
+	return pathEnum("C08", "C08/sibling-paths", RNS{Prop: "C08"}, paths)
+}
+
 func init() {
+	CaseReplayers["C08/sibling-paths"] = func(r *mc.Run, c string) { r.ReplayCase(c08SiblingEnum(), c) }
 	for _, id := range []string{"C08", "C09"} {
 		regScenario(RNS{Prop: id})
 	}
@@ -521,6 +538,8 @@ func init() {
 		r.Rules = append(r.Rules, "BFS over 91 events/state: register, list(2 prices), delist, buy, bid(2), accept, cancel, transfer, update, add/del record by A,B,C on 2 names (one fresh, one genesis-seeded expiring at height 5) + NextBlock; state key = rns+bank stores, header, model")
 		r.Assumptions = append(r.Assumptions, "height == Expires treated as unspecified (handlers disagree there)", "3 principals, 2 names, 1-year terms")
 		r.AddExplore(RNS{Prop: "C08"}, opts(tier, 4, 6, 70, 1500, 200, 3000))
+		r.Rules = append(r.Rules, "sibling paths: 10 fixed histories with the same label registered under both top-level domains (listing, purchase, bid, acceptance, transfer, update on one of them, tried on the other), every step judged by the same oracle")
+		r.AddEnum(c08SiblingEnum(), workers(), time.Time{})
 	}}
 	Props["C09"] = Prop{Level: "model_checking", Run: func(r *mc.Run, tier string) {
 		r.Rules = append(r.Rules, "BFS over 67 events/state: bid (5ujkl,7ujkl,5uatom; repeats allowed), cancel, accept, register, list, buy, transfer by A,B,C on 2 names + NextBlock; oracle Δmodule = ΔΣ open bids on every transition")
